@@ -383,6 +383,10 @@ def _awgn_cfgs(tier):
         if tier == "thorough":
             for s in (-20.0, 7.0, 40.0):
                 out.append(Cfg("awgn", kind, "2x2", "snr", s))
+        # history: the same channel object has first carried a block of the OTHER kind (real <-> complex) and of another dtype
+        out.append(Cfg("awgn", kind, "n2", "P", 0.5, "after_other_kind"))
+        out.append(Cfg("awgn", kind, "n2", "snr", 10.0, "after_other_kind"))
+        out.append(Cfg("awgn", kind, "n2", "P", 0.5, "after_float64"))
     return out
 
 
@@ -401,12 +405,21 @@ def _configure(ctx, how, val):
 def awgn(ctx, cfg):
     from kaira.channels.analog import AWGNChannel
 
-    _, kind, shp, how, val = cfg
+    _, kind, shp, how, val = cfg[:5]
+    history = cfg[5] if len(cfg) > 5 else None
     shape = SHAPES[shp]
     x = make_input(ctx, kind, shape)
     with ctx.sym():
         kw, target, snr_lin = _configure(ctx, how, val)
         chan = AWGNChannel(**kw)
+    if history:
+        if history == "after_other_kind":
+            other = torch.tensor([0.5 - 1.0j, 2.0 + 0.25j, -1.0 + 0j]) if kind == "real" else torch.tensor([0.5, 2.0, -1.0])
+        else:
+            other = torch.tensor([0.5, 2.0, -1.0], dtype=torch.float64) if kind == "real" else torch.tensor([0.5 - 1.0j, 2.0 + 0.25j], dtype=torch.complex128)
+        first = ctx.call(chan.forward, other)
+        ctx.ensure("earlier_block_transmitted", first.ok, note=repr(first.exc) if not first.ok else "")
+    base = len(ctx.rng_draws)
     out = ctx.call(chan.forward, x)
     ctx.ensure("returns", out.ok, note=repr(out.exc) if not out.ok else "")
     if not out.ok:
@@ -415,7 +428,7 @@ def awgn(ctx, cfg):
     ctx.ensure("shape_dtype_preserved", SP.shape_is(y, shape) and y.dtype == x.dtype)
     ctx.ensure("input_unmodified", out.unmodified)
     xr, xi = PC(x)
-    noise_algebra(ctx, chan.forward, (x,), {}, y, (xr, xi), list(ctx.rng_draws), target=target, snr_lin=snr_lin, signal_power=mean_abs2(xr, xi))
+    noise_algebra(ctx, chan.forward, (x,), {}, y, (xr, xi), list(ctx.rng_draws[base:]), target=target, snr_lin=snr_lin, signal_power=mean_abs2(xr, xi))
 
 
 # ================================================================================================ caller-supplied noise
